@@ -39,7 +39,9 @@ def check(fx, fn, iof):
     first = min(walks, key=lambda L: body.rpo().index(L.head))
     out = []
     for b, t in body.calls():
-        if strip_generics(t["callee"].get("path") or "") != "std::io::Seek::seek":
+        is_seek = strip_generics(t["callee"].get("path") or "") == "std::io::Seek::seek"
+        is_helper = (callee_path(t["callee"]) or "").endswith("::skip_bytes_to")      # the crate's `seek(SeekFrom::Start(pos))` helper
+        if not (is_seek or is_helper):
             continue
         # between walks: reachable from the first loop's exits, and some later walk reachable from it
         after_first = any(body.can_reach(x, b) or x == b for x in first.exits)
@@ -52,7 +54,9 @@ def check(fx, fn, iof):
         # SeekFrom::Start(x)
         pl = op_place(t["args"][1])
         sid = None
-        if pl is not None and not pl["p"]:
+        if is_helper:
+            sid = it.read_op(st, t["args"][1], (b, "t"))[0]
+        elif pl is not None and not pl["p"]:
             sd = body.single_def(pl["l"])
             if sd and sd[2] == "assign" and sd[3]["k"] == "agg" and sd[3].get("variant") == "Start":
                 sid = st.cells.get((pl["l"], ".0"))
